@@ -110,6 +110,12 @@ pub mod pegc {
     pub type XRepMinFail = RSeq2<RChoice2<RSeq2<RPush<RStr<LA>>, RRep<RSeq2<RPush<RStr<LB>>, RStr<LC>, RNoSkip, 0>, RNoSkip, 0, 2, { usize::MAX }>, RNoSkip, 0>, RStr<LA>>, RPeekAll, RNoSkip, 0>;
     pub type GRepMMFail<'i> = Seq2<S0<Choice2<Seq2<S0<Push<A>>, S0<RepMinMax<Seq2<S0<Push<B>>, S0<Str<LC>>>, WS, 0, 2, 3>>>, A>>, S0<PEEK_ALL<'i>>>;
     pub type XRepMMFail = RSeq2<RChoice2<RSeq2<RPush<RStr<LA>>, RRep<RSeq2<RPush<RStr<LB>>, RStr<LC>, RNoSkip, 0>, RNoSkip, 0, 2, 3>, RNoSkip, 0>, RStr<LA>>, RPeekAll, RNoSkip, 0>;
+    /// counted repetition of an element that consumes NO input (progress is in the stack only): PUSH(a) ~ PUSH(a)? ~ DROP{2} ~ b ~ PEEK_ALL
+    /// and of an element that may match the empty string: (a*){2,3} ~ PUSH(b)? ~ DROP{1,2}
+    pub type GRepNoProgress<'i> = Seq4<S0<Push<A>>, S0<Option<Push<A>>>, S0<RepMinMax<DROP, WS, 0, 2, 2>>, S0<Seq2<S0<B>, S0<PEEK_ALL<'i>>>>>;
+    pub type XRepNoProgress = RSeq4<RPush<RStr<LA>>, ROpt<RPush<RStr<LA>>>, RRep<RDrop, RNoSkip, 0, 2, 2>, RSeq2<RStr<LB>, RPeekAll, RNoSkip, 0>, RNoSkip, 0>;
+    pub type GRepNullable<'i> = Seq3<S0<RepMinMax<RepMin<A, WS, 0, 0>, WS, 0, 2, 3>>, S0<Option<Push<B>>>, S0<RepMinMax<DROP, WS, 0, 1, 2>>>;
+    pub type XRepNullable = RSeq3<RRep<RRep<RStr<LA>, RNoSkip, 0, 0, { usize::MAX }>, RNoSkip, 0, 2, 3>, ROpt<RPush<RStr<LB>>>, RRep<RDrop, RNoSkip, 0, 1, 2>, RNoSkip, 0>;
     /// nested repetition with optional and SOI/EOI: SOI ~ (a{1,2} ~ b?)* ~ EOI (skips between everything)
     pub type GNest = Seq3<S1<SOI>, S1<RepMin<Seq2<S1<RepMinMax<A, WS, 1, 1, 2>>, S1<Option<B>>>, WS, 1, 0>>, S1<EOI>>;
     pub type XNest = RSeq3<RSoi, RRep<RSeq2<RRep<RStr<LA>, RWS, 1, 1, 2>, ROpt<RStr<LB>>, RWS, 1>, RWS, 1, 0, { usize::MAX }>, REoi, RWS, 1>;
